@@ -29,7 +29,6 @@ TRUSTED_BASE = ["Lean 4.33 kernel", "axioms: propext, Classical.choice, Quot.sou
 ASSUMPTIONS = ["a double printed with %a is imported exactly", "generated inputs are dyadic so rectangle centres are exact",
                "unsatisfiable lists registered through setUnsatisfiableConstraintInfo are the only reporting channel"]
 EXPLANATION = "see LEVEL_TEXT / LEVEL_NOTE"
-WIP = True
 
 
 def plan(tier, seed, searching):
